@@ -394,6 +394,8 @@ fn oracle(cfg: &Cfg, progs: &[Vec<Op>], ob: &Observed) -> bool {
         let cnt = ob.datas.iter().filter(|(k, d)| d.is_some() && (((k >> 32) as usize) * 31 + (k & 0xFFFF_FFFF) as usize) % 64 == i).count();
         if cnt > capi { return false; }
     }
+    // every entry of the cache is the page of exactly one key of the case: no key twice, no orphaned entry
+    if ob.len1 != ob.datas.iter().filter(|(_, d)| d.is_some()).count() { return false; }
     ob.len1 <= cfg.total && ob.len2 <= ob.len1 && ob.len3 == 0 && ob.used3 == cfg.c0
 }
 
@@ -404,6 +406,8 @@ const K2: u64 = 128;          // shard 0
 const K3: u64 = (2u64 << 32) | 2;   // file 2, page 2: (62 + 2) % 64 = shard 0
 const J0: u64 = 1;            // shard 1
 const J1: u64 = 65;           // shard 1
+const K4: u64 = 192;          // shard 0
+const K5: u64 = 256;          // shard 0
 
 fn budget_cfgs() -> Vec<(usize, usize, &'static str)> {
     let mut v = vec![(0usize, 0usize, "roomy")];
@@ -507,6 +511,61 @@ fn generate(rng: &mut Rng, thorough: bool) -> Gen {
                         g.cases.push((cfg.clone(), progs.clone(), sch, kind));
                     }
                 }
+            }
+        }
+    }
+    // (3) same-key race in a FULL shard with several evictable pages: thread 0 fills shard 0 to its capacity
+    //     (>= 2 pages per shard) with unpinned pages, then both threads get_or_insert the same absent key;
+    //     one PageRef is dropped, a further key is inserted into the shard, the remaining PageRef is read.
+    //     Schedules: after the prefill, x runs a steps, y runs b, x runs c, y runs d, rest drained in order
+    //     (every combination of how far each thread gets before / behind site 501 and through the write-locked
+    //     part; while one holds the shard's write lock the other is blocked, so this covers every order of the
+    //     two racing calls), both thread orders, both roles (which thread drops first).
+    {
+        let shard0 = [K0, K1, K2, K3, K4, K5];
+        let mut fam: Vec<(Cfg, Vec<Vec<Op>>)> = vec![];
+        let mut cfgs: Vec<(usize, usize, usize)> = vec![(128, 0, 0)];                       // (total, c0, o): 2 pages per shard
+        if thorough { cfgs.push((192, 0, 0)); cfgs.push((128, 512 * KIB, LIMIT - 512 * KIB - 2 * PS)); cfgs.push((129, 0, 0)); }
+        for (total, c0, o) in cfgs {
+            let cap0 = total / 64 + if total % 64 > 0 { 1 } else { 0 };
+            let mut pre: Vec<Op> = vec![];
+            for i in 0..cap0 { pre.push(Op::GetIns(shard0[i], true, 100 + i as u64)); pre.push(Op::Unpin(shard0[i])); }
+            let (kr, kn) = (shard0[cap0], shard0[cap0 + 1]);
+            // role A: thread 0 drops its PageRef and inserts the further key; thread 1 keeps reading
+            let mut t0 = pre.clone(); t0.extend([Op::GetIns(kr, true, 30), Op::Unpin(kr), Op::GetIns(kn, true, 40), Op::Unpin(kn)]);
+            let t1 = vec![Op::GetIns(kr, true, 31), Op::Read(kr), Op::Write(kr, 32), Op::Read(kr), Op::Unpin(kr)];
+            fam.push((Cfg { total, c0, o }, vec![t0, t1]));
+            // role B: thread 1 drops and inserts; thread 0 keeps reading
+            let mut t0 = pre.clone(); t0.extend([Op::GetIns(kr, true, 30), Op::Read(kr), Op::Get(kr), Op::Read(kr), Op::Unpin(kr), Op::Unpin(kr)]);
+            let t1 = vec![Op::GetIns(kr, true, 31), Op::Unpin(kr), Op::GetIns(kn, true, 41), Op::Read(kr), Op::Unpin(kn)];
+            fam.push((Cfg { total, c0, o }, vec![t0, t1]));
+        }
+        for (cfg, progs) in fam {
+            let keys = keys_of(&progs);
+            // length of the prefill in coarse steps: thread 0 alone until its (2 * cap)th operation boundary
+            let npre_ops = progs[0].iter().take_while(|o| !matches!(o, Op::GetIns(k, _, v) if *v == 30 && *k != K0)).count();
+            let probe = match run_case(&cfg, &progs, &vec![0; 60], &keys) { RunResult::Ok(ob) => ob, RunResult::Discard(_) => continue };
+            let mut pre_steps = 0; let mut seen = 0;
+            for (i, st) in probe.steps.iter().enumerate() {
+                if st.t != 0 { break; }
+                if st.out == StepOutcome::Reached(900) { seen += 1; if seen == npre_ops { pre_steps = i + 1; break; } }
+            }
+            if pre_steps == 0 { continue; }
+            let (ab, cs, ds): (Vec<usize>, Vec<usize>, Vec<usize>) = if thorough {
+                (vec![0, 1, 2, 3], vec![0, 1, 2, 3, 4, 5, 6, 7, 8, 9], vec![0, 1, 2, 6, 7, 8, 9, 12])
+            } else {
+                (vec![0, 1, 2], vec![0, 5, 6, 7, 9], vec![0, 1, 8])
+            };
+            for (x, y) in [(0usize, 1usize), (1, 0)] {
+                for &a in &ab { for &b in &ab { for &c in &cs { for &d in &ds {
+                    if !thorough && a == 0 && b == 0 { continue; }
+                    let mut sch = vec![0usize; pre_steps];
+                    sch.extend(std::iter::repeat(x).take(a));
+                    sch.extend(std::iter::repeat(y).take(b));
+                    sch.extend(std::iter::repeat(x).take(c));
+                    sch.extend(std::iter::repeat(y).take(d));
+                    g.cases.push((cfg.clone(), progs.clone(), sch, "same_key_race_full_shard"));
+                } } } }
             }
         }
     }
